@@ -261,23 +261,41 @@ class Gen:
         lines = [b"rule " + name]
         shape = rng.random()
         rsp = shape < 0.2
+        depref = False
         inref = rng.choice([b"$in", b"${in}"])
         outref = rng.choice([b"$out", b"${out}"])
         if rsp:
             cmd = rv(b"cc") + b" @" + rv(b"rspf") + b" -o " + outref + b" " + rv(b"ldflags")
             self.features.add("rspfile")
+        elif shape < 0.4:
+            # the command / description name the rule's own dependency and response files through $depfile / $rspfile,
+            # which are defined from $out / $in: the quoting mode of the QUERY (command: quoted) must reach them
+            depref = True
+            cmd = rv(b"cc") + b" -MF " + rng.choice([b"$depfile", b"${depfile}"]) + rng.choice([b"", b" @$rspfile", b" @${rspfile}"]) + \
+                b" -c " + inref + b" -o " + outref + b" " + rv(rng.choice([b"cflags", b"opt", b"mode"]))
+            self.features.add("command-via-$depfile")
         elif shape < 0.85:
             cmd = rv(b"cc") + b" " + inref + b" -o " + outref + b" " + rv(rng.choice([b"cflags", b"opt", b"mode", b"a.b"]))
         else:
             cmd = b"tool " + self.word(3, high=0.3) + b" " + outref + b" " + inref + rng.choice([b"", b" $\n      " + rv(b"libs")])
         lines.append(b"  command = " + cmd)
-        if rng.random() < 0.6:
+        if depref:
+            lines.append(b"  depfile = " + rng.choice([outref + b".d", b"deps/" + outref + b".d", inref + b".dep"]))
+            if b"rspfile" in cmd or rng.random() < 0.3:
+                lines.append(b"  rspfile = " + outref + b".rsp")
+                lines.append(b"  rspfile_content = " + rng.choice([inref, b"$in_newline", inref + b" $depfile", b"-o " + outref + b" @$rspfile"]))
+                self.features.add("rspfile-from-$out")
+            if rng.random() < 0.7:
+                lines.append(b"  description = " + rng.choice([b"CC " + outref + b" (deps in $depfile)", b"DEP $depfile", b"RSP $rspfile " + inref]))
+        elif rng.random() < 0.6:
             d = rng.choice([b"CC " + outref, b"LINK " + outref + b" <- " + inref, rv(b"desc") + b" " + outref,
                             b"RUN " + outref + b": $command", b"$$ " + outref + b" $: " + self.word(3)])
             lines.append(b"  description = " + d)
             if b"$command" in d:
                 self.features.add("rule-var-refers-rule-var")
-        if rng.random() < 0.3:
+        if depref:
+            pass
+        elif rng.random() < 0.3:
             lines.append(b"  depfile = " + outref + rng.choice([b".d", b".dep " + rv(b"x")]))
             if rng.random() < 0.6:
                 lines.append(b"  deps = gcc")
@@ -345,7 +363,27 @@ class Gen:
         if info and info["rsp"]:
             self.counter += 1
             lines.append(b"  rspf = r%d.rsp" % self.counter); bl.add(b"rspf")
-        if rng.random() < 0.4 and not use_phony:
+        if info and rng.random() < 0.35:
+            # 2-4 indented bindings that mention names bound EARLIER IN THE SAME statement, file-level names and
+            # themselves: every value is evaluated in the file scope only (the bindings never see each other)
+            used = sorted(n for n in info["refs"] if n != b"rspf") or [b"cflags"]
+            helper = rng.choice([b"opt", b"mode", b"x", b"y", b"libs", b"cflags"])
+            target = rng.choice(used)
+            chain = [(helper, self.word(3, high=0.05))]
+            r = rng.random()
+            if r < 0.5:
+                chain.append((target, self.word(2, high=0.05) + b" " + ref(helper, rng) + b" " + self.word(2, high=0.05)))
+            else:
+                chain.append((target, self.word(3, high=0.05)))
+                chain.append((target, ref(target, rng) + b"-again"))
+            if rng.random() < 0.4:
+                chain.append((helper, ref(target, rng) + b"." + ref(helper, rng)))
+            if rng.random() < 0.4:
+                chain.append((rng.choice(used), ref(helper, rng) + b" " + ref(rng.choice(VAR_NAMES), rng)))
+            for (n, v) in chain:
+                lines.append(b"  " + n + b" = " + v); bl.add(n)
+            self.features.add("build-level-chain")
+        elif rng.random() < 0.4 and not use_phony:
             for _ in range(rng.randint(1, 3)):
                 r = rng.random()
                 if r < 0.6:
@@ -858,6 +896,8 @@ def oracle(chk, run, case, wd, impl, stats):
                             stats["descriptions_ok"] += len(want)
             else:
                 stats["dry_run_failed"] += 1
+                if len(chk.notes.setdefault("dry_run_failures", [])) < 3:
+                    chk.notes["dry_run_failures"].append(show(errn + outn)[-300:])
     return bad
 
 
